@@ -201,9 +201,21 @@ def scopes(tier: str) -> List[dict]:
     return out
 
 
+def dev_mod() -> int:
+    """VF_DEV_ENGINE_MOD=n (development / mutation experiments only): replay a fixed 1/n sample of the behaviours
+    and skip the eager cross-check.  0 = skip the engine part altogether.  Unset = the real check."""
+    v = os.environ.get("VF_DEV_ENGINE_MOD")
+    return int(v) if v not in (None, "") else 1
+
+
 def run_models(rep: Report, tier: str, workers: Any = "auto") -> List[dict]:
     records: List[dict] = []
+    if dev_mod() == 0:
+        return records
     for sc in scopes(tier):
+        if dev_mod() > 1:
+            sc["c"]["EmitMod"] = sc["c"]["EmitMod"] * dev_mod()
+            rep.extra["dev_engine_sample"] = dev_mod()
         m = run_tlc("FixLoop", cfg_text(constants=sc["c"], invariants=SAFETY), timeout=3000, workers=workers, heap="8g")
         expect_model_ok(m, "FixLoop Algo => Contract: " + sc["what"])
         rep.model(m, sc["what"])
@@ -213,6 +225,8 @@ def run_models(rep: Report, tier: str, workers: Any = "auto") -> List[dict]:
     # TLC's emission order depends on worker scheduling: canonical order (cache key, sample choice, ids)
     import json
     records.sort(key=lambda r: json.dumps(r, sort_keys=True))
+    if dev_mod() > 1:
+        return records
     # eager cross-check of the lazy-table argument on a scope small enough to enumerate every table
     e = run_tlc("FixLoop", cfg_text(constants={"K": 3, "NR": 2, "Limits": {3}, "Lazy": False, "Sticky": True, "EmitRecs": False,
                                                "EmitMod": 1, "Phases": {"main"}, "Compats": {True}}, invariants=SAFETY),
@@ -244,6 +258,8 @@ def replay_and_decide(rep: Report, records: List[dict], tier: str, seed: int) ->
     """Replay every emitted behaviour into the real loop (cached per source tree), decide with FixTrace/ENGINE."""
     from .fixsuite import slim, validate_sized
 
+    if not records:
+        return
     key = "engine-" + h([len(records), h(records[:50]), h(records[-50:])])
     outs, how = fixrec.cached(key, tier, 0, lambda: replay_all(records), DEPS)
     rep.extra["engine_replay_cache"] = how
